@@ -584,9 +584,15 @@ def codeCfg : Cfg where
   nilChecked := Gen.c20DrillConds.contains "cursor == nil || isNilPointer(cursor)" &&
                 Gen.c20IsNilPointer == "v := reflect.ValueOf(x); return v.Kind() == reflect.Ptr && v.IsNil()"
   apGuarded := Gen.c20DrillConds.contains "pathPart == \"additionalProperties\" && c.Value != nil"
+  -- 7245059: every resolver defines `key := "<Kind> " + ref` (ten different prefixes) and hands `key` to
+  -- shouldVisitRef, visitRef and unvisitRef
+  keyedByKind :=
+    Gen.c20VisitKeys.all (fun r => r.2.2 == "shouldVisitRef(key) visitRef(key) unvisitRef(key)") &&
+    Gen.c20VisitKeys.map (·.2.1) == ["\"Header \" + ref", "\"Parameter \" + ref", "\"RequestBody \" + ref", "\"Response \" + ref",
+      "\"Schema \" + ref", "\"SecurityScheme \" + ref", "\"Example \" + ref", "\"Callback \" + ref", "\"Link \" + ref", "\"PathItem \" + ref"]
 
 /-- the code before a04fe6c / 25200f7 (witnesses only) -/
-def oldCfg : Cfg := { assertChecked := fun _ => false, nilChecked := false, apGuarded := false }
+def oldCfg : Cfg := { assertChecked := fun _ => false, nilChecked := false, apGuarded := false, keyedByKind := false }
 
 /-! ### the drill-down of the repaired code never panics (no induction over the mutual block is needed:
     a panic arises in one branch of `drillAP` and in the nil-cursor branch of `drillStep` only) -/
@@ -908,8 +914,11 @@ def headerReachesContent (v : JV) : Bool :=
     HeaderRef.Validate → Header.Validate` has no visited set -/
 def headerCycle (b : Built) (ps : List Pos) : Bool :=
   openapiSet b.ds.root &&
-  ps.any (fun p => p.ty == .ptr (.struct "HeaderRef") && !p.j.isNull &&
-    cycleFrom b .header headerKids headerReachesContent 24 0 p.j [])
+  (ps.any (fun p => p.ty == .ptr (.struct "HeaderRef") && !p.j.isNull &&
+    cycleFrom b .header headerKids headerReachesContent 24 0 p.j []) ||
+   -- headers met through a reference into an extension member (no typed position of the root document)
+   b.refs.any (fun r => r.2.1 == .header &&
+    cycleFrom b .header headerKids headerReachesContent 24 r.2.2 (.obj [("$ref", .str (b.textOf r.1))]) []))
 
 /-! ### InternalizeRefs: where `DefaultRefNameResolver` meets a reference without location
 
@@ -967,7 +976,7 @@ def pathItemContent (b : Built) (st : St) : Nat → Nat → Nat → JV → List 
       else match targetJ b.cfg b.ds doc t .pathItem with
         | .wrapper d h2 j2 => pathItemContent b st fuel d h2 j2 (nodeId doc h :: seen)
         | .raw d h2 j2 => pathItemContent b st fuel d h2 j2 (nodeId doc h :: seen)
-        | .single d h2 j2 => (d, h2, j2)
+        | .single d h2 j2 => pathItemContent b st fuel d h2 j2 (nodeId doc h :: seen)   -- 376b90f: the file may be a reference itself
         | _ => (doc, h, .obj [])
 
 /-- `add<Kind>ToSpec` up to the call of the name resolver: `isExternal`, or the panic -/
